@@ -30,6 +30,11 @@ def histories(tier, rng):
                  kill("P1"), pub("P2", "e1"), sub("C3", "e1", "link"), reg("P2", "e1", buf, notify), sub("C3", "e1", "link"), pub("P2", "e1")])
             add([reg("P1", "e1", buf, notify), reg("P2", "e2", buf, not notify), reg("P2", "e1"), sub("C1", "e1", "link"), sub("C1", "e2", "monitor"), sub("C1", "e1", "link"),
                  pub("P1", "e1"), pub("P2", "e2"), pub("P1", "e1"), unr("P2", "e1"), unr("P1", "e1"), pub("P2", "e2"), uns("C1", "e1", "link"), uns("C1", "e2", "monitor"), uns("C1", "e2", "monitor")])
+    # events owned by the node itself (its notices go nowhere: the first subscriber must still be served)
+    for buf in (0, 2):
+        for notify in (False, True):
+            add([reg("N", "e1", buf, notify), pub("N", "e1"), pub("N", "e1"), sub("C1", "e1", "link"), pub("N", "e1"), sub("C2", "e1", "monitor"), pub("N", "e1"),
+                 uns("C1", "e1", "link"), uns("C2", "e1", "monitor"), sub("C3", "e1", "monitor"), bad("N", "e1"), bad("P1", "e1"), pub("N", "e1"), unr("P1", "e1"), unr("N", "e1")])
     for _ in range(400 if tier == "quick" else 4000):
         ops = []
         subs = set(); owner = {}; alive = set(P)
